@@ -479,7 +479,7 @@ func trunc(s string, n int) string {
 func confirm(bin string, job Job, prop string, v Violation) (bool, string) {
 	var first string
 	n := 5
-	if strings.Contains(v.Kind, "does-not-return") || strings.Contains(v.Kind, "watchdog") {
+	if strings.Contains(v.Kind, "does-not-return") || strings.Contains(v.Kind, "does-not-exit") || strings.Contains(v.Kind, "watchdog") {
 		n = 2 // every replay of a non-returning call costs the whole watchdog limit
 	}
 	for i := 0; i < n; i++ {
